@@ -437,11 +437,25 @@ pub fn find(y: i32, mo: u8, d: u8, h: u8, mi: u8, s: u8, ns: u32, tz: TimeZoneRe
     r
 }
 
+thread_local! {
+    static FIND_N_ALLOCS: std::cell::Cell<(usize, usize)> = const { std::cell::Cell::new((0, 0)) };
+}
+
+/// (number of heap allocations, bytes) made by this thread inside the last `DateTime::find_n` call
+pub fn last_find_n_allocations() -> (usize, usize) {
+    FIND_N_ALLOCS.with(|c| c.get())
+}
+
 #[inline]
 #[allow(clippy::too_many_arguments)]
 pub fn find_n<'a>(buf: &'a mut [Option<FoundDateTimeKind>], y: i32, mo: u8, d: u8, h: u8, mi: u8, s: u8, ns: u32, tz: TimeZoneRef<'_>) -> Result<FoundDateTimeListRefMut<'a>, E> {
     let blen = buf.len() as i64;
-    let r = DateTime::find_n(buf, y, mo, d, h, mi, s, ns, tz).map_err(|e| tz_err(&e));
+    // the buffer-based search is the allocation-free one: the counting allocator brackets exactly this call
+    let snap = crate::util::alloc::begin();
+    let r = DateTime::find_n(buf, y, mo, d, h, mi, s, ns, tz);
+    let used = crate::util::alloc::end(snap);
+    FIND_N_ALLOCS.with(|c| c.set((used.nalloc, used.total)));
+    let r = r.map_err(|e| tz_err(&e));
     let n = match &r {
         Ok(l) => {
             for k in l.data().iter().flatten() {
